@@ -116,11 +116,13 @@ def handleMulti (l : Line) : IO Unit := do
   let conf := (bits? (l.getD "conf")).getD 0
   let n := (l.nat? "n").getD 0
   let pts := (l.getD "pts").splitOn "|"
+  -- (summary text, complete?, positive?, within range?)
   let results := pts.map fun p =>
     match p.splitOn ";" with
     | [nuS, deS, st] =>
       let nu := goSort (bitsDots nuS)
       let de := goSort (bitsDots deS)
+      if de.isEmpty then ("-", false, false, true) else
       let stream := if st == "" then [] else (st.splitOn ",").filterMap String.toNat?
       let s := Boot.ratio Boot.f64 nu de conf n stream
       let pos := (nu ++ de).all positive
@@ -129,15 +131,22 @@ def handleMulti (l : Line) : IO Unit := do
       let lo := F64.div nl dh
       let hi := F64.div nh dl
       let within (x : Bits) : Bool := F64.le lo x && F64.le x hi
-      (s!"{canon s.low}:{canon s.center}:{canon s.high}", pos, within s.low && within s.center && within s.high)
-    | _ => ("?", false, true)
-  IO.println s!"obs {l.id} sums={",".intercalate (results.map (·.1))}"
+      (s!"{canon s.low}:{canon s.center}:{canon s.high}", true, pos, within s.low && within s.center && within s.high)
+    | _ => ("?", false, false, true)
+  -- the Summaries grid: point i sits at benchmark i, series row i % 2; a position is Defined exactly when a
+  -- complete point sits there
+  let k := results.length
+  let rows := if k ≥ 2 then 2 else 1
+  let complete := results.map (·.2.1)
+  let defGrid := String.join ((List.range rows).flatMap fun srow =>
+    (List.range k).map fun i => if i % 2 == srow && complete.getD i false then "1" else "0")
+  IO.println s!"obs {l.id} sums={",".intercalate (results.map (·.1))} def={defGrid}"
   -- specification: the summary of a point is the summary of its samples alone, and lies within the
   -- ratios attainable from its own (positive) samples
   let same := String.join (results.map fun _ => "1")
-  let inS := String.join (results.map fun r => if r.2.1 then "1" else "n")
-  let rounding := results.any fun r => r.2.1 && !r.2.2
-  IO.println s!"spec {l.id} same={same} in={inS}{if rounding then " kf=N3R" else ""}"
+  let inS := String.join (results.map fun r => if r.2.1 && r.2.2.1 then "1" else "n")
+  let rounding := results.any fun r => r.2.1 && r.2.2.1 && !r.2.2.2
+  IO.println s!"spec {l.id} same={same} in={inS} def={defGrid}{if rounding then " kf=N3R" else ""}"
 
 def handlePct (l : Line) : IO Unit := do
   let a := bitsDots (l.getD "a")
